@@ -15,7 +15,7 @@ RESN = ['ALA', 'GLY', 'LYS', 'TRP', 'SER', 'VAL']
 
 def make_world(rng, root, nspecies=None, ninst=(1, 12), order='random', box_kind='rect', with_solvent=True,
                with_vel=False, title=None, end_for=None, multi_res_prob=0.35, small_prob=0.3,
-               unique_grid=False, sizes_hint=None):
+               unique_grid=False, sizes_hint=None, resid_mode='consecutive'):
     """Returns a dict describing the world (see keys below)."""
     os.makedirs(root, exist_ok=True)
     nspecies = nspecies or int(rng.integers(2, 5))
@@ -89,7 +89,7 @@ def make_world(rng, root, nspecies=None, ninst=(1, 12), order='random', box_kind
         box = L
     records, instances = sysgen.build_system(rng, species, seq, box=L, with_vel=with_vel,
                                              mode='unique-grid' if unique_grid else 'rigid+jitter',
-                                             resid_start=int(rng.integers(1, 40)))
+                                             resid_start=int(rng.integers(1, 40)), resid_mode=resid_mode)
     title = title if title is not None else ['generated world', 'Mixed system, t= 10.0', ' padded title '][int(rng.integers(0, 3))]
     sys_gro = os.path.join(root, 'system.gro')
     gen.write_gro(sys_gro, title, records, box)
